@@ -411,6 +411,16 @@ def vm_crosscheck(pid, run_module, cases, model_out, fn="run"):
     if not cases:
         return True, ""
     d = os.path.join(BUILD, "ml", pid)
+    # Coq's parser/VM overflow the stack on very long string literals: keep the sample within a size budget
+    # (shortest cases first when the budget is exceeded; at least one pair always remains)
+    sel = sorted(zip(cases, model_out), key=lambda p: len(p[0]) + len(p[1]))
+    keep, total = [], 0
+    for c, o in sel:
+        n = len(c) + len(o)
+        if keep and (n > 6000 or total + n > 60000):
+            break
+        keep.append((c, o)); total += n
+    cases, model_out = [c for c, _ in keep], [o for _, o in keep]
     pairs = "; ".join("(%s, %s)" % (coq_string(c), coq_string(o)) for c, o in zip(cases, model_out))
     src = ("From ZV Require Import Base.Bytes %s.\nFrom Coq Require Import String.\nOpen Scope string_scope.\n"
            "Definition pairs : list (string * string) := [%s]%%list.\n"
